@@ -7,6 +7,8 @@ import (
 	"sort"
 	"strings"
 
+	"github.com/Oneledger/protocol/action"
+	ndact "github.com/Oneledger/protocol/action/network_delegation"
 	"github.com/Oneledger/protocol/data/keys"
 
 	"olsim/core"
@@ -23,6 +25,8 @@ type c02Oracle struct {
 	rewardBlocks   int
 	supplyAddrs    map[string]bool
 	skippedWrapped int
+	tightBlocks    int
+	trackers       *TrackerModel // the C15 reference model: what locks/refunds reached witness finality in a block
 }
 
 func (o *c02Oracle) AfterStep(e *core.Engine, idx int, st *core.Step, stepErr error) []core.Violation {
@@ -31,6 +35,7 @@ func (o *c02Oracle) AfterStep(e *core.Engine, idx int, st *core.Step, stepErr er
 		o.supplyAddrs = map[string]bool{
 			keys.Address(core.SupplyAddrName).String(): true,
 		}
+		o.trackers = NewTrackerModel(e.W)
 		return o.ledgerSanity(e, 0)
 	}
 	if st.Kind != "block" || !o.obs.Update(e, st) {
@@ -44,6 +49,7 @@ func (o *c02Oracle) AfterStep(e *core.Engine, idx int, st *core.Step, stepErr er
 			o.okTxs++
 		}
 	}
+	o.trackers.Update(ob, e) // its own verdicts belong to C15; here only the allowance is used
 	vs := o.ledgerSanity(e, h)
 	if len(vs) > 0 {
 		return vs
@@ -82,6 +88,58 @@ func (o *c02Oracle) AfterStep(e *core.Engine, idx int, st *core.Step, stepErr er
 			return vs
 		}
 	}
+	// (i') the tight form: the delegators' reward balances are the only records the reward schedule feeds.
+	// All other OLT value together grows in a block only by what successful reward withdrawals and
+	// reinvestments move out of those balances (amounts decoded from the transactions); maturity movements,
+	// fees, stakes, escrows and burns stay inside or lower it.
+	{
+		moved := new(big.Int)
+		tightOK := true
+		for _, t := range ob.Txs {
+			if t.Res.Code != 0 {
+				continue
+			}
+			if t.Tx == nil {
+				tightOK = false
+				break
+			}
+			var amt *action.Amount
+			switch t.Tx.Type {
+			case action.REWARDS_WITHDRAW_NETWORK_DELEGATE:
+				m := &ndact.Withdraw{}
+				if m.Unmarshal(t.Tx.Data) != nil {
+					tightOK = false
+				} else {
+					amt = &m.Amount
+				}
+			case action.REWARDS_REINVEST_NETWORK_DELEGATE:
+				m := &ndact.Reinvest{}
+				if m.Unmarshal(t.Tx.Data) != nil {
+					tightOK = false
+				} else {
+					amt = &m.Amount
+				}
+			}
+			if amt != nil {
+				if amt.Currency != "OLT" || amt.Value.BigInt().Sign() < 0 {
+					tightOK = false
+				} else {
+					moved.Add(moved, amt.Value.BigInt())
+				}
+			}
+		}
+		if tightOK {
+			o.tightBlocks++
+			pN := new(big.Int).Sub(pOLT, c02Sum(ob.Prev.DelegRwBalance))
+			cN := new(big.Int).Sub(cOLT, c02Sum(ob.Cur.DelegRwBalance))
+			if d := new(big.Int).Sub(cN, pN); d.Cmp(moved) > 0 {
+				vs = append(vs, mk("total-never-increases", "olt-created-outside-reward-balances:"+o.obs.SuspectSig(),
+					fmt.Sprintf("OLT value outside the delegators' reward balances rose by %s nue (%s -> %s); successful reward withdrawals/reinvestments of this block move %s nue out of the reward balances; components before %s after %s",
+						d, pN, cN, moved, partsStr(prevT.Parts["OLT"]), partsStr(curT.Parts["OLT"]))))
+				return vs
+			}
+		}
+	}
 	// (iii) other currencies: no increase (wrapped currencies: only when a tracker finalised in this block)
 	curs := map[string]bool{}
 	for c := range prevT.ByCurrency {
@@ -103,7 +161,7 @@ func (o *c02Oracle) AfterStep(e *core.Engine, idx int, st *core.Step, stepErr er
 		if d.Sign() <= 0 {
 			continue
 		}
-		allowed := wrappedAllowance(ob, c)
+		allowed := o.trackers.Allowance(c)
 		if d.Cmp(allowed) > 0 {
 			vs = append(vs, mk("total-never-increases", "wrapped-total-increased:"+o.obs.SuspectSig(),
 				fmt.Sprintf("total %s on chain rose by %s, locks/refunds that reached witness finality in this block allow %s", c, d, allowed)))
@@ -111,6 +169,14 @@ func (o *c02Oracle) AfterStep(e *core.Engine, idx int, st *core.Step, stepErr er
 		}
 	}
 	return vs
+}
+
+func c02Sum(m map[string]*big.Int) *big.Int {
+	x := new(big.Int)
+	for _, v := range m {
+		x.Add(x, v)
+	}
+	return x
 }
 
 func getB(m map[string]*big.Int, k string) *big.Int {
@@ -206,17 +272,16 @@ func init() {
 			"(ii) delegation reward claims grow by at most pulled(H), observed by calling the real PullRewards on a throw-away store over the committed records of H-1; (iii) every other currency never increases except by locks/refunds finalised in that block; " +
 			"(iv) no decoded amount is negative; unknown key families make the check exit 2 (ledger incomplete). Non-trivial: >=5 blocks and >=5 successful transactions; distinct = distinct fingerprints.",
 		MakeSetup: func(rng *rand.Rand, tier string, seed uint64) *Setup {
-			k := SwarmKnobs(rng)
-			su := &Setup{Knobs: k, Sess: gen.NewSession()}
-			su.Replicas = append(su.Replicas, core.ReplicaConf{Identity: "x0", Quiet: true, Recent: 10, Every: 100, Cycles: 10, WitnessInitEarly: true})
-			su.Gens = allGens(rng)
-			su.Gens = append(su.Gens, gen.ByName("hostile-values")...)
-			su.Blocks = 12 + rng.Intn(30)
+			nb := 12 + rng.Intn(30)
 			if tier == "thorough" {
-				su.Blocks = 15 + rng.Intn(50)
+				nb = 15 + rng.Intn(50)
 			}
-			su.MaxTx = 12
-			su.PlanHook = AbsentHook(0.05)
+			su := drawWorkload(rng, tier, seed, 4, nb)
+			su.Replicas = append(su.Replicas, core.ReplicaConf{Identity: "x0", Quiet: true, Recent: 10, Every: 100, Cycles: 10, WitnessInitEarly: true})
+			if su.Sess.M["borrowed-from"] == nil || rng.Intn(2) == 0 {
+				su.Gens = append(su.Gens, gen.ByName("hostile-values")...)
+			}
+			su.PlanHook = chainPlan(su.PlanHook, AbsentHook(0.05))
 			return su
 		},
 		MakeOracle: func(e *core.Engine, tr *core.Trace) Oracle { return &c02Oracle{} },
